@@ -61,7 +61,10 @@ def gen_case(rng):
     dy = tol.denominator in (1, 2, 4, 8, 16) and exact_boundary
     for _ in range(n - 1):
         k = rng.random()
-        if k < 0.35:
+        if k < 0.08:
+            # a step backwards (or no step): time stamps are not assumed to increase; a gap of -P is as far out of tolerance as any
+            g = rng.choice([-P, -P, 0, -P * (1 + tol), -P / 2])
+        elif k < 0.35:
             g = P
         elif k < 0.5 and dy:
             g = P * (1 - tol)                         # exactly on the lower boundary: inside
